@@ -90,6 +90,25 @@ def oracle_(case):
         return False, f"{name} on a 1-D array {arr!r} differs from element-by-element {exp!r}"
     if arr2.shape != (2, 2) or not np.array_equal(arr2, np.array(exp2), equal_nan=True):
         return False, f"{name} on a 2-D array {arr2!r} differs from element-by-element {exp2!r}"
+    # the same degrees held in a float32 / float16 array (exactly representable there): same degrees, same result
+    if 0 <= x <= 1:
+        for dt in (np.float32, np.float16):
+            if float(dt(x)) != x:
+                continue
+            with np.errstate(all="ignore"):
+                low = np.asarray(hedges()[name].hedge(np.array([x, 0.25, x], dtype=dt)), dtype=float)
+            if low.shape != (3,) or not all((a != a and b != b) or abs(a - b) <= 1e-9 * (1 + abs(b)) for a, b in zip(low, exp)):
+                return False, f"{name} on a {dt.__name__} array of the degree {x} gives {low!r}, on the same degree as float64 {exp!r}"
+    # the same array OBJECT hedged again after its contents were replaced in place: the result follows the contents
+    buf = np.array([x, 0.25, x], dtype=float)
+    with np.errstate(all="ignore"):
+        hedges()[name].hedge(buf)
+        buf[:] = [0.75, x, 0.125]
+        again = np.asarray(hedges()[name].hedge(buf), dtype=float)
+    exp3 = [impl(name, 0.75), impl(name, x), impl(name, 0.125)]
+    if again.shape != (3,) or not np.array_equal(again, np.array(exp3), equal_nan=True):
+        return False, (f"{name} applied to the same array object after its contents were replaced in place gives {again!r}, "
+                       f"element-by-element {exp3!r}")
     return True, "ok"
 
 
